@@ -527,6 +527,26 @@ def _decide(p, q, quats):
     return UNKNOWN
 
 
+def _closed_constant(p):
+    """a polynomial in pi and rationals only"""
+    return all(all(a.kind == "sym" and a.key[0] == "pi" for a, e in m) for m in p.t)
+
+
+def _even_positive_form(p):
+    """non-constant sum of even-power monomials of symbols with positive coefficients: takes arbitrarily large values"""
+    if not p.t:
+        return False
+    nonconst = False
+    for m, c in p.t.items():
+        if c <= 0:
+            return False
+        for a, e in m:
+            if a.kind != "sym" or a.key[0] == "pi" or e % 2 or e < 0:
+                return False
+        nonconst |= bool(m)
+    return nonconst
+
+
 def _one_series_swapped(d):
     """d = c * (s1 - s2) with c a non-zero form free of series atoms and s1, s2 two table functions of one argument
     family: the same entry at arguments r1 P and r2 P (rationals r1 != r2, P not constant), or two different entries
@@ -557,6 +577,15 @@ def _one_series_swapped(d):
     if not isinstance(p1, Poly) or not isinstance(p2, Poly) or p1.const_value() is not None or p2.const_value() is not None:
         return False
     if (k1, q1) == (k2, q2):
+        # same function at u and at fmin(u, c), u a sum of even powers with positive coefficients (unbounded above): for
+        # u > c the second is the constant f(c), and f(u) = f(c) on a half line would make the analytic f constant
+        for pa, pb in ((p1, p2), (p2, p1)):
+            at = pb.single_atom()
+            if at is not None and pb == Poly.atom(at) and at.kind == "fmin" and len(at.key) == 2:
+                others = [k for k in at.key if isinstance(k, Poly) and not _closed_constant(k)]
+                consts = [k for k in at.key if isinstance(k, Poly) and _closed_constant(k)]
+                if len(others) == 1 and len(consts) == 1 and others[0] == pa and _even_positive_form(pa):
+                    return True
         # same function: arguments must be different rational multiples of one polynomial
         if len(p1.t) != len(p2.t) or set(p1.t) != set(p2.t):
             return False
